@@ -7,7 +7,8 @@ tie   : four streams from three overlay harness files call the real code (common
         and the Lean driver c11drv evaluates the same lines.  Only answers are compared; layout dumps,
         error classes, API-misuse ops and inputs outside the property's domain are diagnostics.
 """
-import json, os, resource, subprocess, time
+import json, os, resource, subprocess, threading, time
+from concurrent.futures import ThreadPoolExecutor
 from verifkit import read_lines, LEAN, REPO, CACHE, go_env, sh
 
 REQUIRED = [
@@ -40,6 +41,17 @@ REQUIRED = [
     "DaeVerif.C11.Props.domain_matcher_bitmap_correct_any_case",
     "DaeVerif.C11.Props.full_pattern_any_case",
     "DaeVerif.C11.Props.bitlist_words_ok",
+    "DaeVerif.C11.Props.match_loops_eq_per_set_definition",
+    "DaeVerif.C11.Props.index_order_irrelevant",
+    "DaeVerif.C11.Props.reported_index_order_is_valid",
+    "DaeVerif.C11.Props.domain_matcher_loops_correct",
+    "DaeVerif.C11.Props.build_under_every_worker_order",
+    "DaeVerif.C11.Props.domain_matcher_correct_under_every_worker_order",
+    "DaeVerif.C11.Props.doc_hits_eq_docMatches",
+    "DaeVerif.C11.Props.bitlist_set_loops_eq_flat_writes",
+    "DaeVerif.C11.Props.bitlist_get_set_loops",
+    "DaeVerif.C11.Props.anybuffer_refines_zero_extended_array",
+    "DaeVerif.C11.Props.anybuffer_from_refines",
 ]
 
 # generator scale the evidence may claim (the check refuses to finish below these)
@@ -48,10 +60,18 @@ REQUIRED = [
 # every floor is met by a DETERMINISTIC case of the generator (forced sizes), never by luck of the seed
 MIN_SCALE = {"quick": {"trie.keys.max": 20000, "trie.nodes.max": 65536, "dm.trie.nodes.max": 65536,
                        "dm.set.size.max": 10000, "dm.name.len.max": 4000, "ac.keywords.max": 1500, "cc.sessions": 20,
-                       "dm.sets.max": 1024, "cc.sets.max": 1024, "cc.sessions.first_queries_concurrent": 10},
+                       "dm.sets.max": 1024, "cc.sets.max": 1024, "cc.sessions.first_queries_concurrent": 10,
+                       "dm.ix.reported": 50, "dm.err_at_step.sessions": 64, "dm.boundary_index.sessions": 12,
+                       "dm.boundary_index.one_past": 12, "dm.mixed_kind.queries": 150, "cc.generation_overlap": 8,
+                       "cc.gomaxprocs.1": 4, "cc.gomaxprocs.16": 4,
+                       "ab.scripts": 400, "ab.script.with_truncate": 50},
              "thorough": {"trie.keys.max": 200000, "trie.nodes.max": 65536, "dm.trie.nodes.max": 65536,
                           "dm.set.size.max": 100000, "dm.name.len.max": 4000, "ac.keywords.max": 10000, "cc.sessions": 100,
-                          "dm.sets.max": 1024, "cc.sets.max": 1024, "cc.sessions.first_queries_concurrent": 50}}
+                          "dm.sets.max": 1024, "cc.sets.max": 1024, "cc.sessions.first_queries_concurrent": 50,
+                          "dm.ix.reported": 150, "dm.err_at_step.sessions": 64, "dm.boundary_index.sessions": 12,
+                          "dm.boundary_index.one_past": 12, "dm.mixed_kind.queries": 150, "cc.generation_overlap": 40,
+                          "cc.gomaxprocs.1": 20, "cc.gomaxprocs.16": 20,
+                          "ab.scripts": 4000, "ab.script.with_truncate": 500}}
 PLAIN = set(b"abcdefghijklmnopqrstuvwxyzABCDEFGHIJKLMNOPQRSTUVWXYZ0123456789-_.")
 
 
@@ -126,22 +146,85 @@ STREAMS = [
 ]
 
 
-def run_driver(ctx, ops, out):
-    """c11drv with a large stack (the model recurses over 10^5-element key lists)."""
-    binp = os.path.join(LEAN, ".lake", "build", "bin", "c11drv")
+def _big_stack():
+    """c11drv gets a large stack (the model recurses over 10^5-element key lists)."""
+    try:
+        resource.setrlimit(resource.RLIMIT_STACK, (resource.RLIM_INFINITY, resource.RLIM_INFINITY))
+    except (ValueError, OSError):
+        soft, hard = resource.getrlimit(resource.RLIMIT_STACK)
+        resource.setrlimit(resource.RLIMIT_STACK, (hard, hard))
 
-    def big_stack():
-        try:
-            resource.setrlimit(resource.RLIMIT_STACK, (resource.RLIM_INFINITY, resource.RLIM_INFINITY))
-        except (ValueError, OSError):
-            soft, hard = resource.getrlimit(resource.RLIMIT_STACK)
-            resource.setrlimit(resource.RLIMIT_STACK, (hard, hard))
+
+UNIT_STARTS = ("new", "ac", "alpha", "bl", "blx", "ab", "trie", "trieall", "cc")
+SHARDS = 4
+
+
+def shard_units(lines):
+    """Split an op stream into independent units: a matcher session (`new` … up to the next unit start) or a
+    single stateless line.  The driver's state is reset by `new`, so units can be evaluated by separate
+    driver processes; the outputs are put back in stream order."""
+    units, cur = [], None
+    for i, l in enumerate(lines):
+        w = l.split(" ", 1)[0]
+        if cur is None or w in UNIT_STARTS:
+            cur = [i, i + 1, 0]
+            units.append(cur)
+        cur[1] = i + 1
+        cur[2] += len(l) + 50
+    return units
+
+
+def run_driver(ctx, ops, out):
+    """Evaluate the op file with up to SHARDS concurrent c11drv processes; write the model answers to `out`
+    in stream order.  False = a driver did not finish (infrastructure)."""
+    binp = os.path.join(LEAN, ".lake", "build", "bin", "c11drv")
+    raw = open(ops, "rb").read().split(b"\n")
+    if raw and raw[-1] == b"":
+        raw.pop()
+    lines = [l.decode("utf-8", "replace") for l in raw]
+    units = shard_units(lines)
+    k = max(1, min(SHARDS, len(units)))
+    loads = [0] * k
+    assign = [[] for _ in range(k)]
+    for u in sorted(units, key=lambda u: -u[2]):          # heaviest first, to the least loaded shard
+        j = loads.index(min(loads))
+        loads[j] += u[2]
+        assign[j].append(u)
+    results = [None] * len(lines)
+    ok = [True] * k
     t0 = time.time()
-    with open(ops, "rb") as fin, open(out, "wb") as fout:
-        p = subprocess.run([binp], stdin=fin, stdout=fout, stderr=subprocess.PIPE, timeout=3000,
-                           preexec_fn=big_stack)
-    ctx.log.write(f"$ c11drv < {ops} [{time.time()-t0:.1f}s rc={p.returncode}] {p.stderr.decode()[-500:]}\n")
-    return p.returncode == 0
+
+    def one(j):
+        us = sorted(assign[j])
+        idx = [i for u in us for i in range(u[0], u[1])]
+        data = b"".join(raw[i] + b"\n" for i in idx)
+        try:
+            p = subprocess.run([binp], input=data, stdout=subprocess.PIPE, stderr=subprocess.PIPE, timeout=3000,
+                               preexec_fn=_big_stack)
+        except subprocess.TimeoutExpired:
+            ok[j] = False
+            return
+        outl = p.stdout.split(b"\n")
+        if outl and outl[-1] == b"":
+            outl.pop()
+        if p.returncode != 0 or len(outl) != len(idx):
+            ok[j] = False
+            ctx.log.write(f"c11drv shard {j} of {ops}: rc={p.returncode} lines={len(outl)}/{len(idx)} {p.stderr.decode()[-500:]}\n")
+            return
+        for i, o in zip(idx, outl):
+            results[i] = o
+    ths = [threading.Thread(target=one, args=(j,)) for j in range(k)]
+    for t in ths:
+        t.start()
+    for t in ths:
+        t.join()
+    ctx.log.write(f"$ c11drv < {ops} [{time.time()-t0:.1f}s shards={k} units={len(units)} ok={all(ok)}]\n")
+    if not all(ok):
+        return False
+    with open(out, "wb") as f:
+        for o in results:
+            f.write((o or b"") + b"\n")
+    return True
 
 
 def run(ctx):
@@ -153,38 +236,82 @@ def run(ctx):
         "anybuffer.Buffer is modelled as a growable zero-initialised uint16 array (its Extend path is exercised by the bitlist tie)",
         "goroutine fan-out inside Build and concurrent MatchDomainBitmap calls are not modelled (the model is a pure function); a -race stream compares 8-goroutine replays with the sequential answers and checks that no set is lost by Build",
     ]
-    ctx.prove(["DaeVerif.C11.Props"], ["DaeVerif.C11.Props"], ["DaeVerif/C11/*.lean"], extra_targets=["c11drv"])
-    ctx.required_theorems(REQUIRED)
+    # the Go side does not depend on the Lean side: build the four test binaries and run the harnesses in
+    # background threads while the proofs are checked; the drivers start once c11drv is built
+    proved = threading.Event()
+    dm_built = threading.Event()
+    dm_bin = {}
+    streams = list(STREAMS) + [("component/routing/domain_matcher", "component/routing/domain_matcher/c11_test.go",
+                                "c11cc", "TestVerifC11Concurrent", "c11cc")]
+
+    def produce(pkg, hf, binname, test, label):
+        res = {"label": label, "raced": False, "rc": 2, "out": "", "model_ok": None, "built": False}
+        try:
+            if label == "c11cc":
+                # same overlay as c11dm, built with the race detector (falls back to the plain binary if -race
+                # cannot link here)
+                ov = os.path.join(ctx.out, "overlay_c11dm.json")
+                for _ in range(3000):
+                    if os.path.exists(ov) or dm_built.is_set():
+                        break
+                    time.sleep(0.1)
+                time.sleep(0.3)
+                rbin = os.path.join(ctx.bindir, binname + ".race.test")
+                if os.path.exists(rbin):
+                    os.unlink(rbin)
+                cmd = ["go", "test", "-c", "-race", "-vet=off", "-overlay", ov, "-o", rbin, "./" + pkg]
+                rc0, out0, dt0 = sh(cmd, cwd=REPO, env=go_env(), timeout=3000)
+                ctx.log.write(f"$ {' '.join(cmd)} [{dt0:.1f}s rc={rc0}]\n{out0[-2000:]}\n")
+                if rc0 == 0 and os.path.exists(rbin):
+                    binp, res["raced"] = rbin, True
+                else:
+                    dm_built.wait(3000)
+                    binp = dm_bin.get("bin")
+                    res["note"] = "NOTE: -race build unavailable here, concurrency stream runs without the race detector"
+            else:
+                binp = ctx.go_test_build(pkg, [hf], binname, tags="")
+                if label == "c11dm":
+                    dm_bin["bin"] = binp
+                    dm_built.set()
+            if not binp:
+                return res
+            res["built"] = True
+            res["rc"], res["out"] = ctx.run_harness(binp, test)
+            ops, model = (os.path.join(ctx.out, label + "." + e) for e in ("ops", "model"))
+            if os.path.exists(ops):
+                proved.wait(6000)
+                if os.path.exists(os.path.join(LEAN, ".lake", "build", "bin", "c11drv")):
+                    res["model_ok"] = run_driver(ctx, ops, model)
+        except Exception as e:      # reported by the main thread as an infrastructure error
+            res["exc"] = repr(e)
+        finally:
+            if label == "c11dm":
+                dm_built.set()
+        return res
+
+    pool = ThreadPoolExecutor(max_workers=4)
+    futs = [pool.submit(produce, *st) for st in streams]
+    try:
+        ctx.prove(["DaeVerif.C11.Props"], ["DaeVerif.C11.Props"], ["DaeVerif/C11/*.lean"], extra_targets=["c11drv"])
+        ctx.required_theorems(REQUIRED)
+    finally:
+        proved.set()
 
     total = 0
     distinct = set()
     dist = {}
     samples = []
     diagnostics = {"layout_differs": 0, "error_class_differs": 0, "outside_alphabet_differs": 0}
-    streams = list(STREAMS) + [("component/routing/domain_matcher", "component/routing/domain_matcher/c11_test.go",
-                                "c11cc", "TestVerifC11Concurrent", "c11cc")]
-    for pkg, hf, binname, test, label in streams:
-        raced = False
-        if label == "c11cc":
-            binp = os.path.join(ctx.bindir, "c11dm.test")   # same harness file: the plain binary has this test too
-        else:
-            binp = ctx.go_test_build(pkg, [hf], binname, tags="")
-        if not binp:
+    for (pkg, hf, binname, test, label), fut in zip(streams, futs):
+        res = fut.result()
+        if res.get("exc"):
+            ctx.say("HARNESS-FAILED", label, res["exc"])
             return 2
-        if label == "c11cc":
-            # same overlay, built with the race detector (falls back to the plain binary if -race cannot link here)
-            ov = os.path.join(ctx.out, "overlay_c11dm.json")
-            rbin = os.path.join(ctx.bindir, binname + ".race.test")
-            if os.path.exists(rbin):
-                os.unlink(rbin)
-            cmd = ["go", "test", "-c", "-race", "-vet=off", "-overlay", ov, "-o", rbin, "./" + pkg]
-            rc0, out0, dt0 = sh(cmd, cwd=REPO, env=go_env(), timeout=3000)
-            ctx.log.write(f"$ {' '.join(cmd)} [{dt0:.1f}s rc={rc0}]\n{out0[-2000:]}\n")
-            if rc0 == 0 and os.path.exists(rbin):
-                binp, raced = rbin, True
-            else:
-                ctx.say("NOTE: -race build unavailable here, concurrency stream runs without the race detector")
-        rc, out = ctx.run_harness(binp, test)
+        if not res["built"]:
+            return 2
+        if res.get("note"):
+            ctx.say(res["note"])
+        raced, rc, out = res["raced"], res["rc"], res["out"]
         ops, impl, model = (os.path.join(ctx.out, label + "." + e) for e in ("ops", "impl", "model"))
         if "DATA RACE" in out:
             blk = out[out.index("DATA RACE") - 20:][:3500]
@@ -212,7 +339,11 @@ def run(ctx):
         if rc != 0 or not os.path.exists(ops):
             ctx.say("HARNESS-FAILED", label, out[-3000:])
             return 2
-        if not run_driver(ctx, ops, model):
+        if not res["model_ok"] and ctx.proof_failures:
+            # no (fresh) driver because the Lean build is broken: the verdict is the broken proof
+            total += len(read_lines(ops))
+            continue
+        if not res["model_ok"]:
             # a killed / crashed driver (OOM, stack limit) is an infrastructure error, not a broken proof
             ctx.say(f"HARNESS-FAILED model driver c11drv did not finish on stream {label} (killed / out of memory / stack limit?)")
             return 2
@@ -228,6 +359,11 @@ def run(ctx):
                 continue
             if m[0] > 0 and (m[0] - 1) in misuse and " idx=" not in m[3] and " spec=" not in m[3]:
                 diagnostics["api_misuse_differs"] = diagnostics.get("api_misuse_differs", 0) + 1
+                continue
+            if m[0] > 0 and m[1].startswith("ix "):
+                # white-box: the index lists Build left behind, as the harness read them by reflection.  Only
+                # answers are compared: a matcher that keeps its bookkeeping differently is not wrong
+                diagnostics["index_lists_differ"] = diagnostics.get("index_lists_differ", 0) + 1
                 continue
             if m[0] > 0 and m[1].startswith("blx "):
                 diagnostics["bitlist_outside_domain_differs"] = diagnostics.get("bitlist_outside_domain_differs", 0) + 1
@@ -254,7 +390,7 @@ def run(ctx):
             if "!spec" in mo or " spec=" in mo or " doc=" in mo or " idx=" in mo:
                 if not any(m[0] == i + 1 for m in mism):
                     mism.append((i + 1, o, im, mo))
-            if o.startswith(("q ", "trie ", "bl ", "ac ", "cc ", "trieall", "qall")):
+            if o.startswith(("q ", "trie ", "bl ", "ab ", "ac ", "cc ", "trieall", "qall")):
                 distinct.add(o if len(o) < 300 else hash(o))
         ctx.cov["streams"][label]["mismatches"] = len(mism)
         for ln, op, im, mo in mism[:6]:
